@@ -484,6 +484,11 @@ def run_lapack_instances(items):
     return out
 
 
+def run_baseprod(cases):
+    from harness.checks import c17
+    return [{"raised": o["raised"]} if "raised" in o else {"ccs": [nm for nm, ok in o.get("ccs", {}).items() if ok is False]} for o in c17._run_sp_calls(cases)]
+
+
 def run_import(cases):
     from harness.checks import c20
     return [{"n": len(c20._import_cases([c]))} for c in cases]
@@ -536,6 +541,16 @@ def main():
         cases = [c16.gen_program(rnd, rnd.randint(4, 10)) for _ in range(n)]
         out["cases"] = cases
         out["results"] = isolated(run_sparse_programs, cases, 120, 10)
+    elif fam == "baseprod":
+        from harness.checks import c17
+        cases = []
+        for i in range(n):
+            c = c17.gen_sp_call(rnd, c17.SP[i % len(c17.SP)])
+            c["explicit_ints"] = rnd.random() < 0.15
+            c["explicit_flags"] = rnd.random() < 0.15
+            cases.append(c)
+        out["cases"] = cases
+        out["results"] = isolated(run_baseprod, cases, 120, 50)
     elif fam == "lapack":
         from harness.checks import c18
         fams = ["ge", "gb", "gt", "po", "pb", "pt", "sy", "he", "tr", "tb"]
